@@ -3,7 +3,7 @@
    SigSafe.v, SigValues.v, SigSnapshot.v; Print Assumptions follows each. *)
 From Coq Require Import List NArith Bool.
 Import ListNotations.
-Require Import Util SigCore SigLemmas SigInv SigSafe SigSpec SigValues SigSnapshot.
+Require Import Util SigCore SigLemmas SigInv SigSafe SigSpec SigValues SigSnapshot SigAccSnapshot.
 Local Open Scope N_scope.
 
 Theorem C13_value_emit_returns_last_invoked : S_value_emit_last.
@@ -25,3 +25,10 @@ Print Assumptions C13_moving_rearms.
 Theorem C13_undereferenced_never_invoked : S_undereferenced_never_invoked.
 Proof. exact undereferenced_never_invoked. Qed.
 Print Assumptions C13_undereferenced_never_invoked.
+
+(* with an accumulator: the accumulator is called once per emission with a range covering exactly the
+   slots present when the emission started, in order, walkable forwards and backwards by index,
+   whatever the running slots do; emit() returns what the accumulator computed *)
+Theorem C13_accumulator_range_is_start_snapshot : S_acc_emit_is_snapshot.
+Proof. exact acc_emit_is_snapshot. Qed.
+Print Assumptions C13_accumulator_range_is_start_snapshot.
